@@ -28,7 +28,7 @@ core.ensure_env()
 from unytsim import evidence, minimise, runner  # noqa: E402
 
 PROFILES = {
-    "C12": {"level": "exploration", "quick_runs": 3000, "quick_budget": 75, "thorough_budget": 900,
+    "C12": {"level": "exploration", "quick_runs": 3000, "quick_budget": 60, "thorough_budget": 900,
             "selftest_quick": 48, "selftest_thorough": 256, "timeout": 120},
     "C13": {"level": "exploration", "quick_runs": 3000, "quick_budget": 75, "thorough_budget": 900,
             "selftest_quick": 48, "selftest_thorough": 256, "timeout": 120},
@@ -241,11 +241,11 @@ def cmd_check(tier, prop):
 
         total = regsim.SWEEP_TOTAL
         if tier == "quick":
-            idxs = sorted(random.Random(f"{seed}:C12:sweep").sample(range(total), 400))
+            idxs = sorted(random.Random(f"{seed}:C12:sweep").sample(range(total), 300))
         else:
             idxs = list(range(total))
         sweep_specs = [{"prop": "C12", "seed": seed, "run": 10_000_000 + i, "sweep": i} for i in idxs]
-        _, nr2 = runner.run_batch(sweep_specs, timeout=prof["timeout"], budget_s=(45 if tier == "quick" else 3600),
+        _, nr2 = runner.run_batch(sweep_specs, timeout=prof["timeout"], budget_s=(30 if tier == "quick" else 3600),
                                   on_result=on_result)
         not_run += nr2
         log(f"C12 sweep: {len(idxs) - nr2} of {total} systematic cases run")
